@@ -1,6 +1,11 @@
 #!/usr/bin/env python3
-"""Build /verif/seeded/<Cxx>-m<N>/ from the mutant agents' output, my confirmation logs and the detection matrix.
-usage: tools/collect_seeded.py <agents_out_dir> <confirm_dir> <matrix.json>"""
+"""Build /verif/seeded/ from the sub-agents' output, my confirmation logs and the evaluation summary.
+
+usage: tools/collect_seeded.py <evaluation summary> <out_round1> <confirm_round1> <out_round2> <confirm_round2> <benign_root>
+
+  evaluation summary: lines "<name> rc=<n> errs=<n> fired=[C01 C02 ]" written by the runner that applied every patch to a
+                      scratch worktree of /repo HEAD and ran `./check all` (names: m1-Cxx-mN, m2-Cxx-mN, b-<dir>-rN, revert_Dn)
+"""
 import glob
 import json
 import os
@@ -10,12 +15,24 @@ import sys
 
 VERIF = os.path.dirname(os.path.dirname(os.path.abspath(__file__)))
 
+FILE_PROPS = {
+    "src/worker.rs": ["C01", "C02", "C04", "C07", "C08", "C13", "C14", "C15", "C16"],
+    "src/server.rs": ["C03", "C05", "C06", "C09", "C12", "C16"],
+    "src/packet.rs": ["C10", "C11", "C09", "C05"],
+    "src/convert.rs": ["C10", "C11"],
+    "src/window.rs": ["C18", "C01", "C02", "C08"],
+    "src/socket.rs": ["C12", "C05", "C02", "C07"],
+    "src/config.rs": ["C17", "C16"],
+    "src/client_config.rs": ["C17"],
+    "src/client.rs": ["C14"],
+}
+
 
 def section(text, pat):
     out = []
     on = False
     for line in text.splitlines():
-        if line.startswith("#"):
+        if line.startswith("#") or (line.startswith("**") and line.rstrip().endswith("**")):
             if on:
                 break
             if re.search(pat, line, re.I):
@@ -26,78 +43,120 @@ def section(text, pat):
     return "\n".join(out).strip()
 
 
+def load_summary(path):
+    res = {}
+    for line in open(path):
+        m = re.match(r"(\S+) rc=(\d+) errs=(\d+) fired=\[(.*)\]", line.strip())
+        if m:
+            res[m.group(1)] = {"rc": int(m.group(2)), "errs": int(m.group(3)), "fired": m.group(4).split()}
+    return res
+
+
 def main():
-    src, confirm, matrix = sys.argv[1:4]
-    mx = json.load(open(matrix))
-    repo_head = os.popen("git -C /repo rev-parse --short HEAD").read().strip()
-    index = []
-    for d in sorted(glob.glob(os.path.join(src, "C*", "m*"))):
-        pid = os.path.basename(os.path.dirname(d))
-        mn = os.path.basename(d)
-        sid = "%s-%s" % (pid, mn)
-        dst = os.path.join(VERIF, "seeded", sid)
+    summ, out1, conf1, out2, conf2, benign = sys.argv[1:7]
+    ev = load_summary(summ)
+    head = os.popen("git -C /repo rev-parse --short HEAD").read().strip()
+    sd = os.path.join(VERIF, "seeded")
+    for d in glob.glob(os.path.join(sd, "*")):
+        if os.path.isdir(d):
+            shutil.rmtree(d)
+    os.makedirs(sd, exist_ok=True)
+    rows = []
+    for rnd, src, confirm in ((1, out1, conf1), (2, out2, conf2)):
+        for d in sorted(glob.glob(os.path.join(src, "C*", "m*"))):
+            pid = os.path.basename(os.path.dirname(d))
+            mn = os.path.basename(d)
+            sid = "%s-r%d%s" % (pid, rnd, mn)
+            dst = os.path.join(sd, sid)
+            os.makedirs(dst, exist_ok=True)
+            for f in os.listdir(d):
+                if f == "patch.diff" or f.startswith("demo_") or f == "README.md":
+                    shutil.copy(os.path.join(d, f), os.path.join(dst, f))
+            readme = open(os.path.join(d, "README.md")).read() if os.path.exists(os.path.join(d, "README.md")) else ""
+            title = readme.splitlines()[0].lstrip("# ").strip() if readme else sid
+            needs = section(readme, r"needed|manifest|trigger|condition|needs")
+            res = {}
+            log = os.path.join(confirm, "%s-%s.log" % (pid, mn))
+            if os.path.exists(log):
+                m = re.search(r"RESULT (.*)", open(log).read())
+                if m:
+                    for kv in m.group(1).split():
+                        if "=" in kv:
+                            k, v = kv.split("=", 1)
+                            res[k] = int(v) if v.isdigit() else v
+            row = ev.get("m%d-%s-%s" % (rnd, pid, mn))
+            valid = bool(res.get("clean_demo_pass")) and bool(res.get("suite_ok")) and bool(res.get("mutant_demo_fails"))
+            meta = {
+                "id": sid, "kind": "seeded-violation", "property": pid, "round": rnd, "title": title,
+                "origin": "sub-agent given only the text of %s and its own scratch worktree of rs-tftpd; nothing from /verif" % pid,
+                "needs_to_manifest": needs[:3000],
+                "demonstration": sorted(f for f in os.listdir(dst) if f.startswith("demo_")),
+                "confirmed_by_me": {
+                    "base_commit": head,
+                    "how": "scratch worktree of /repo HEAD: (1) the demo, dropped into tests/, passes on the unchanged tree (cargo test --offline --features "
+                           "client --test <demo>); (2) the patch applies, cargo build --offline --features client succeeds and cargo test --workspace "
+                           "--no-fail-fast --offline passes (42 unit + 11 doc tests); (3) the demo fails with the patch applied",
+                    "clean_demo_passes": bool(res.get("clean_demo_pass")),
+                    "builds_and_suite_passes": bool(res.get("suite_ok")),
+                    "suite_tests_passed": res.get("suite_passed"),
+                    "demo_fails_with_patch": bool(res.get("mutant_demo_fails")),
+                },
+                "valid": valid,
+                "invalid_because": None if valid else ("the demo no longer passes on the unchanged tree: a later fix: commit repaired the defect this change relied on"
+                                                       if not res.get("clean_demo_pass") else "not confirmed"),
+                "checks_that_fire": row["fired"] if row else None,
+            }
+            json.dump(meta, open(os.path.join(dst, "meta.json"), "w"), indent=1)
+            rows.append(meta)
+    brows = []
+    for p in sorted(glob.glob(os.path.join(benign, "*", "r*.diff"))):
+        grp = os.path.basename(os.path.dirname(p))
+        n = os.path.basename(p)[:-5]
+        sid = "benign-%s-%s" % (grp, n)
+        dst = os.path.join(sd, sid)
         os.makedirs(dst, exist_ok=True)
-        for f in os.listdir(d):
-            if f == "patch.diff" or f.startswith("demo_") or f == "README.md":
-                shutil.copy(os.path.join(d, f), os.path.join(dst, f))
-        readme = open(os.path.join(d, "README.md")).read() if os.path.exists(os.path.join(d, "README.md")) else ""
-        title = readme.splitlines()[0].lstrip("# ").strip() if readme else sid
-        needs = section(readme, r"needed|manifest|trigger|condition")
-        log = os.path.join(confirm, "%s-%s.log" % (pid, mn))
-        res = {}
-        if os.path.exists(log):
-            m = re.search(r"RESULT (.*)", open(log).read())
-            if m:
-                for kv in m.group(1).split():
-                    if "=" in kv:
-                        k, v = kv.split("=", 1)
-                        res[k] = int(v) if v.isdigit() else v
-        mrow = None
-        for k, v in mx.items():
-            if k.endswith("/%s/%s/patch.diff" % (pid, mn)):
-                mrow = v
-        meta = {
-            "id": sid,
-            "property": pid,
-            "title": title,
-            "origin": "sub-agent given only the text of %s and a scratch worktree of rs-tftpd; nothing from /verif" % pid,
-            "needs_to_manifest": needs,
-            "demonstration": sorted(f for f in os.listdir(dst) if f.startswith("demo_")),
-            "confirmed_by_me": {
-                "base_commit": repo_head,
-                "how": "scratch worktree of /repo HEAD: (1) demo as tests/<demo>.rs passes on the unchanged tree "
-                       "(cargo test --offline --features client --test <demo>); (2) patch applies, cargo build --offline "
-                       "--features client succeeds, cargo test --workspace --no-fail-fast --offline passes (42 unit + 11 doc); "
-                       "(3) the demo fails with the patch applied",
-                "clean_demo_passes": bool(res.get("clean_demo_pass")),
-                "builds_and_suite_passes": bool(res.get("suite_ok")),
-                "suite_tests_passed": res.get("suite_passed"),
-                "demo_fails_with_patch": bool(res.get("mutant_demo_fails")),
-            },
-            "valid": bool(res.get("clean_demo_pass")) and bool(res.get("suite_ok")) and bool(res.get("mutant_demo_fails")),
-            "checks_that_fire": (mrow or {}).get("fired"),
-            "violations_reported": (mrow or {}).get("violations"),
-        }
+        shutil.copy(p, os.path.join(dst, "patch.diff"))
+        txt = p[:-5] + ".txt"
+        desc = open(txt).read().strip() if os.path.exists(txt) else ""
+        files = sorted(set(re.findall(r"^\+\+\+ b/(\S+)", open(p).read(), re.M)))
+        rel = []
+        for f in files:
+            for x in FILE_PROPS.get(f, []):
+                if x not in rel:
+                    rel.append(x)
+        row = ev.get("b-%s-%s" % (grp, n))
+        meta = {"id": sid, "kind": "benign", "title": desc.splitlines()[0][:200] if desc else sid, "description": desc[:1500], "files": files,
+                "relevant_to": rel,
+                "origin": "sub-agent asked for behaviour-preserving refactorings (it built the crate and ran the test suite on each)",
+                "checks_that_fire": row["fired"] if row else None}
         json.dump(meta, open(os.path.join(dst, "meta.json"), "w"), indent=1)
-        index.append(meta)
-    # index table
-    lines = ["# Seeded changes", "",
-             "Each directory holds a change (`patch.diff`) that compiles, passes the existing 42 unit + 11 doc tests and breaks the",
-             "named property under the stated conditions, the demonstration that exposes it, the author's notes and `meta.json`.",
-             "None is committed to /repo. `matrix.json` is the raw output of `tools/matrix.py` (every check run on every change).",
-             "", "| id | property | change | own check fires | all checks that fire | valid on HEAD |", "|---|---|---|---|---|---|"]
-    for m in index:
+        brows.append(meta)
+    lines = ["# Seeded changes and benign refactorings", "",
+             "`<Cxx>-r<round>m<n>/`: a change (`patch.diff`) that compiles, passes the existing 42 unit + 11 doc tests and breaks the named property under the",
+             "stated conditions, with the demonstration that exposes it, the author's notes (`README.md`) and `meta.json` (what it needs to manifest, what I",
+             "ran to confirm it, which checks fire). `benign-*/`: behaviour-preserving refactorings; every check must stay silent on them.",
+             "None of this is committed to /repo. The table is the outcome of applying each patch to a scratch worktree of /repo HEAD (%s) and running" % head,
+             "`./check all`.", "",
+             "| id | property | change | own check fires | checks that fire | valid on HEAD |", "|---|---|---|---|---|---|"]
+    for m in rows:
         fired = m["checks_that_fire"]
         own = "—" if fired is None else ("yes" if m["property"] in fired else "**no**")
-        lines.append("| %s | %s | %s | %s | %s | %s |" % (m["id"], m["property"], m["title"].replace("|", "/")[:110], own,
-                                                     "n/a" if fired is None else (", ".join(fired) or "none"), "yes" if m["valid"] else "no (see meta.json)"))
-    rev = sorted(k for k in mx if "revert_" in k)
+        lines.append("| %s | %s | %s | %s | %s | %s |" % (m["id"], m["property"], m["title"].replace("|", "/")[:100], own,
+                                                     "not run" if fired is None else (", ".join(fired) or "**none**"), "yes" if m["valid"] else "no"))
+    rev = sorted(k for k in ev if k.startswith("revert_"))
     if rev:
         lines += ["", "Reverse patches of the `fix:` commits (`selftest/mutants/`):", "", "| patch | checks that fire |", "|---|---|"]
         for k in rev:
-            lines.append("| %s | %s |" % (os.path.basename(k), ", ".join(mx[k].get("fired", []))))
-    open(os.path.join(VERIF, "seeded", "README.md"), "w").write("\n".join(lines) + "\n")
-    print("\n".join(lines))
+            lines.append("| %s | %s |" % (k, ", ".join(ev[k]["fired"])))
+    lines += ["", "Benign refactorings:", "", "| id | files | checks that fire (should be none) |", "|---|---|---|"]
+    for m in brows:
+        fired = m["checks_that_fire"]
+        lines.append("| %s | %s | %s |" % (m["id"], ", ".join(m["files"]), "not run" if fired is None else (", ".join(fired) or "none")))
+    open(os.path.join(sd, "README.md"), "w").write("\n".join(lines) + "\n")
+    nv = [m for m in rows if m["valid"]]
+    print("seeded: %d (valid %d), detected by some check: %d, by own check: %d" % (
+        len(rows), len(nv), sum(1 for m in nv if m["checks_that_fire"]), sum(1 for m in nv if m["checks_that_fire"] and m["property"] in m["checks_that_fire"])))
+    print("benign: %d, silent: %d" % (len(brows), sum(1 for m in brows if m["checks_that_fire"] == [])))
 
 
 if __name__ == "__main__":
